@@ -170,6 +170,7 @@ def check_history(case, ctx):
         committed = _modelval({k: (v.copy() if hasattr(v, "copy") else v) for k, v in model.items()})
         flushed = dict(committed)
         detached = False
+        reattach = "merge"
         boundaries = 0
         muts_since_boundary = 0
         segments_with_mut = 0
@@ -182,8 +183,12 @@ def check_history(case, ctx):
             if name in SESSION_OPS:
                 classes.add(name)
                 if detached and name != "read":
-                    # bring the unpickled copy back first
-                    obj = session.merge(obj)
+                    # bring the unpickled copy back first: merge() (a new tracked copy) or add() (the unpickled object itself,
+                    # whose Mutable values must have been re-linked to it by the unpickle listener)
+                    if reattach == "add":
+                        session.add(obj)
+                    else:
+                        obj = session.merge(obj)
                     detached = False
                 if name in ("flush", "commit"):
                     getattr(session, name)()
@@ -214,6 +219,7 @@ def check_history(case, ctx):
                     obj = pickle.loads(pickle.dumps(obj, op[1] if len(op) > 1 else 4))
                     session = Session(eng)
                     detached = True
+                    reattach = op[2] if len(op) > 2 else "merge"
                 elif name == "reload":
                     session.commit()
                     flushed = committed = _modelval({k: (v.copy() if hasattr(v, "copy") else v) for k, v in model.items()})
@@ -315,7 +321,10 @@ def check_history(case, ctx):
                         flushed = _modelval({k: (v.copy() if hasattr(v, "copy") else v) for k, v in model.items()})
         # final: commit and reload in a fresh session
         if detached:
-            obj = session.merge(obj)
+            if reattach == "add":
+                session.add(obj)
+            else:
+                obj = session.merge(obj)
         session.commit()
         session.close()
         session = Session(eng)
@@ -343,7 +352,7 @@ def _op(draw, excluded=True):
     grp = draw(st.sampled_from(["sess", "sess", "sess", "d", "l", "lp", "s", "pt", "d", "l", "s"]))
     if grp == "sess":
         name = draw(st.sampled_from(SESSION_OPS))
-        return [name, draw(st.integers(2, 5))] if name == "pickle" else [name]
+        return [name, draw(st.integers(2, 5)), draw(st.sampled_from(["merge", "add", "add"]))] if name == "pickle" else [name]
     if grp == "d":
         name = draw(st.sampled_from(DICT_OPS + ["replace"]))
         if name == "replace":
